@@ -89,8 +89,10 @@ def validator_probes(ctx, res, ops, impl):
 
     def mk(height, prev, value):
         values = value if isinstance(value, (list, tuple)) else [value]
-        cb = Transaction([Input(OutputReference(b"\x00" * 32, 0), CoinbaseData(height, b"c16"))],
-                         [Output(v_, miner) for v_ in values])
+        from . import chain as _chain
+        # (as decoded from the wire: any 64-bit pattern can stand in an amount field)
+        cb = _chain.wire_transaction([Input(OutputReference(b"\x00" * 32, 0), CoinbaseData(height, b"c16"))],
+                                     [(v_, miner) for v_ in values])
         sm = BlockSummary(height, prev, consensus.calc_merkle_root_hash([cb]), 1_700_000_000 + height % 1000,
                           b"\xff" * 32, 0)
         return Block(BlockHeader(sm, PowEvidence(b"\x00" * 32, b"\x00" * 32, b"\x00" * 32)), [cb])
@@ -117,6 +119,10 @@ def validator_probes(ctx, res, ops, impl):
             claims[(spec(h) - 1, 1)] = True
             claims[(spec(h), spec(h))] = False
             claims[(spec(h) // 2 + 1, spec(h) // 2 + 1, 1)] = False
+        # amounts that add up to the allowed amount modulo 2^64, or when the top bit is taken for a sign
+        claims[(spec(h) + 2 ** 62, 2 ** 64 - 2 ** 62)] = False
+        claims[(spec(h) + 1, 2 ** 64 - 1)] = False
+        claims[(2 ** 63, 2 ** 63 + spec(h))] = False
         for value, allowed in claims.items():
             if not isinstance(value, tuple) and value <= 0:
                 continue                      # a zero-valued output is refused elsewhere (range check), not here
